@@ -1,5 +1,5 @@
 /-
-`isoCond` for simple programs, part 1.  Every binder ES5 resolution reports names a declared symbol of a scope record that
+`isoCond` for simple programs (no label, no named function expression), part 1.  Every binder ES5 resolution reports names a declared symbol of a scope record that
 is determined by the binder's (kind, scope) (`BOK`); on such binders the record renaming is one-to-one (from
 `remap_injective_visible`) and keeps what must be kept.
 -/
@@ -25,6 +25,8 @@ inductive BOK (recs : List Rec) (τ : Tau) : Binder → Prop where
       BOK recs τ { kind := .var, scope := s, name := n }
   | glob (n : String) (A : Anc) : RecRoot recs [A] → A.kind = .func → ChainGood [A] → n ∈ A.decl →
       (∀ m, tauN τ .global [] m = applyTable A.remapped m) → BOK recs τ { kind := .global, scope := [], name := n }
+  | «catch» (s : SPath) (n : String) (u : Nat) (K : Anc) (C : List Anc) : RecVar recs s (K :: C) → K.kind = .catch n u →
+      BOK recs τ { kind := .catch, scope := s, name := n }
 
 /-- `Al` with, per environment record, the scope record that the look-ups by node path return -/
 inductive AlR (recs : List Rec) (τ : Tau) : List Layer → List Anc → Prop where
@@ -33,11 +35,24 @@ inductive AlR (recs : List Rec) (τ : Tau) : List Layer → List Anc → Prop wh
   | func (p : SPath) (names : List String) (E : List Layer) (A : Anc) (C : List Anc) :
       Al τ ({ kind := .var, scope := p, names := names } :: E) (A :: C) → RecVar recs p (A :: C) → AlR recs τ E C →
       AlR recs τ ({ kind := .var, scope := p, names := names } :: E) (A :: C)
+  | «catch» (p : SPath) (c : String) (E : List Layer) (K : Anc) (C : List Anc) :
+      Al τ ({ kind := .catch, scope := p, names := [c] } :: E) (K :: C) → RecVar recs p (K :: C) → AlR recs τ E C →
+      AlR recs τ ({ kind := .catch, scope := p, names := [c] } :: E) (K :: C)
 
 theorem alR_al {recs : List Rec} {τ : Tau} {E : List Layer} {C : List Anc} (h : AlR recs τ E C) : Al τ E C := by
   cases h with
   | root names A h _ => exact h
   | func p names E A C h _ _ => exact h
+  | «catch» p c E K C h _ _ => exact h
+
+theorem alR_catch_inv {recs : List Rec} {τ : Tau} {p : SPath} {c : String} {E' : List Layer} {C' : List Anc}
+    (h : AlR recs τ ({ kind := .catch, scope := p, names := [c] } :: E') C') :
+    ∃ K C u, C' = K :: C ∧ K.kind = .catch c u ∧ RecVar recs p (K :: C) ∧ AlR recs τ E' C := by
+  cases h with
+  | «catch» _ _ _ K C hal hrec hr =>
+    obtain ⟨K', C'', u, he, hk, _⟩ := al_catch_inv hal
+    cases he
+    exact ⟨K, C, u, rfl, hk, hrec, hr⟩
 
 /-- what a look-up in an aligned environment returns -/
 theorem lookupEnv_bok {recs : List Rec} {τ : Tau} : ∀ {E : List Layer} {C : List Anc}, AlR recs τ E C →
@@ -68,20 +83,48 @@ theorem lookupEnv_bok {recs : List Rec} {τ : Tau} : ∀ {E : List Layer} {C : L
           exact .args p "arguments"
         · rw [lookupEnv_skip hc' (by simp [ha])]
           exact ih n
+  | «catch» p c E K C hal hrec _ ih =>
+    intro n
+    obtain ⟨K', C', u, he, hk, _⟩ := al_catch_inv hal
+    cases he
+    by_cases hc : ([c] : List String).contains n = true
+    · rw [lookupEnv_hit hc]
+      have : n = c := by simpa using hc
+      subst this
+      exact .catch p n u K C hrec hk
+    · have hc' : ([c] : List String).contains n = false := by simpa using hc
+      rw [lookupEnv_skip hc' (by simp)]
+      exact ih n
 
-/-- the head record: a declared name of the innermost environment record -/
-theorem head_bok {recs : List Rec} {τ : Tau} {E : List Layer} {C : List Anc} (h : AlR recs τ E C)
-    {L : Layer} {E' : List Layer} (he : E = L :: E') {n : String} (hn : n ∈ headDecl C) :
-    BOK recs τ { kind := L.kind, scope := L.scope, name := n } := by
-  cases h with
+/-- a declared name of the variable environment of an aligned environment -/
+theorem var_bok {recs : List Rec} {τ : Tau} : ∀ {E : List Layer} {C : List Anc}, AlR recs τ E C →
+    ∀ {vk : BKind} {vs : SPath} {n : String}, varLayer E = some (vk, vs) → varDeclOK C n = true →
+    BOK recs τ { kind := vk, scope := vs, name := n } := by
+  intro E C h
+  induction h with
   | root names A hal hrec =>
-    cases he
+    intro vk vs n hv hd
     cases hal with
-    | root _ _ hk hnames htau hg => exact .glob n A hrec hk hg (by simpa [headDecl] using hn) htau
-  | func p names E0 A C0 hal hrec _ =>
-    cases he
+    | root _ _ hk hnames htau hg =>
+      simp only [varLayer] at hv
+      have hv' : (BKind.global, ([] : SPath)) = (vk, vs) := by simpa using hv
+      cases hv'
+      exact .glob n A hrec hk hg (by simpa [varDeclOK, hk] using hd) htau
+  | func p names E A C hal hrec _ _ =>
+    intro vk vs n hv hd
     cases hal with
-    | func _ _ _ _ _ hk hnames htau hg hC _ => exact .var p n A C0 hrec hk hg hC (by simpa [headDecl] using hn) htau
+    | func _ _ _ _ _ hk hnames htau hg hC _ =>
+      simp only [varLayer] at hv
+      have hv' : (BKind.var, p) = (vk, vs) := by simpa using hv
+      cases hv'
+      exact .var p n A C hrec hk hg hC (by simpa [varDeclOK, hk] using hd) htau
+  | «catch» p c E K C hal hrec _ ih =>
+    intro vk vs n hv hd
+    obtain ⟨K', C', u, he, hk, _⟩ := al_catch_inv hal
+    cases he
+    simp only [varLayer, beq_self_eq_true, if_true] at hv
+    simp only [varDeclOK, hk, Bool.and_eq_true] at hd
+    exact ih hv hd.2
 
 /-! ### one-to-one and keeping -/
 
@@ -117,17 +160,20 @@ theorem mapBinder_inj {recs : List Rec} {τ : Tau} {b1 b2 : Binder} (h1 : BOK re
     | args s' n' => cases hk
     | var s' n' A' C' _ _ _ _ _ _ => cases hk
     | glob n' A' _ _ _ _ _ => cases hk
+    | «catch» s' n' u' K' C' _ _ => cases hk
   | args s n =>
     cases h2 with
     | free s' n' => cases hk
     | args s' n' => simp only at hk hs hn; simp [tauN] at hn; rw [hs, hn]
     | var s' n' A' C' _ _ _ _ _ _ => cases hk
     | glob n' A' _ _ _ _ _ => cases hk
+    | «catch» s' n' u' K' C' _ _ => cases hk
   | var s n A C hrec hkA hg hC hd htau =>
     cases h2 with
     | free s' n' => cases hk
     | args s' n' => cases hk
     | glob n' A' _ _ _ _ _ => cases hk
+    | «catch» s' n' u' K' C' _ _ => cases hk
     | var s' n' A' C' hrec' hkA' hg' hC' hd' htau' =>
       simp only at hs hn
       subst hs
@@ -144,6 +190,7 @@ theorem mapBinder_inj {recs : List Rec} {τ : Tau} {b1 b2 : Binder} (h1 : BOK re
     | free s' n' => cases hk
     | args s' n' => cases hk
     | var s' n' A' C' _ _ _ _ _ _ => cases hk
+    | «catch» s' n' u' K' C' _ _ => cases hk
     | glob n' A' hrec' hkA' hg' hd' htau' =>
       simp only at hn
       obtain ⟨R, rest, hR, hRc⟩ := hrec
@@ -154,6 +201,24 @@ theorem mapBinder_inj {recs : List Rec} {τ : Tau} {b1 b2 : Binder} (h1 : BOK re
       cases hRc'
       rw [htau n, htau n'] at hn
       rw [applyTable_inj_root hkA hg hd hd' hn]
+  | «catch» s n u K C hrec hkK =>
+    cases h2 with
+    | free s' n' => cases hk
+    | args s' n' => cases hk
+    | var s' n' A' C' _ _ _ _ _ _ => cases hk
+    | glob n' A' _ _ _ _ _ => cases hk
+    | «catch» s' n' u' K' C' hrec' hkK' =>
+      simp only at hs
+      subst hs
+      obtain ⟨R, hR, hRc⟩ := hrec
+      obtain ⟨R', hR', hRc'⟩ := hrec'
+      rw [hR] at hR'
+      cases hR'
+      rw [hRc] at hRc'
+      cases hRc'
+      rw [hkK] at hkK'
+      cases hkK'
+      rfl
 
 theorem functional_of_inj (f : Binder → Binder) : ∀ (l : List Binder),
     (∀ x ∈ l, ∀ y ∈ l, f x = f y → x = y) → functional (l.map (fun b => (f b, b))) = true
@@ -180,6 +245,7 @@ theorem isoCond_of_bok {recs : List Rec} {τ : Tau} (og : Bool) (occs : List Occ
   | free s n => simp [tauN]
   | args s n => simp [tauN]
   | var s n A C _ _ _ _ _ _ => simp [keepsName]
+  | «catch» s n u K C _ _ => simp [keepsName]
   | glob n A hrec _ _ _ htau =>
     cases og with
     | true => simp [keepsName]
